@@ -7,6 +7,7 @@ import threading
 VERIF = os.path.dirname(os.path.dirname(os.path.abspath(__file__)))
 REPO = os.environ.get('VERIF_REPO', '/repo')
 TARGET = os.path.join(VERIF, 'build', 'replay-target')
+ALT = os.environ.get('VERIF_ALT', '')   # suffix that keeps the scratch driver copies of parallel development runs apart
 _lock = threading.Lock()
 _built = {}
 
@@ -20,7 +21,7 @@ def build():
         work = src
         if REPO != '/repo':
             # analyse a scratch copy of the repository: rewrite the path patches
-            work = os.path.join(VERIF, 'build', 'replay-alt')
+            work = os.path.join(VERIF, 'build', 'replay-alt' + ALT)
             shutil.rmtree(work, ignore_errors=True)
             shutil.copytree(src, work)
             p = os.path.join(work, 'Cargo.toml')
@@ -32,7 +33,7 @@ def build():
         lock = os.path.join(REPO, 'Cargo.lock')
         if os.path.exists(lock):
             shutil.copy(lock, os.path.join(work, 'Cargo.lock'))
-        env = dict(os.environ, CARGO_NET_OFFLINE='true', CARGO_TARGET_DIR=TARGET if REPO == '/repo' else TARGET + '-alt')
+        env = dict(os.environ, CARGO_NET_OFFLINE='true', CARGO_TARGET_DIR=TARGET if REPO == '/repo' else TARGET + '-alt' + ALT)
         # the C sources of feel-number are compiled by its build script (cc crate), which emits rerun-if-env-changed lines
         # and therefore is NOT re-run when a .c/.h file changes: detect that here and drop the stale objects from OUR target dir
         import hashlib, glob
